@@ -62,7 +62,7 @@ using namespace vh;
 
 // ----------------------------------------------------------------------------------------------- info sets
 struct Id { QString cat, type, lang, name; };
-struct Fld { QString key; char kind; QStringList vals; };   // 't' QString (1 value) | 'l' QStringList | 'b' bool ("1"/"0")
+struct Fld { QString key; char kind; QStringList vals; };   // 't' QString (1 value, possibly the empty non-null string; 0 values = null QString) | 'l' QStringList | 'b' bool ("1"/"0")
 struct InfoSet {
     QList<Id> ids; QStringList feats; bool hasForm = false; QList<Fld> fields;
 };
@@ -108,7 +108,8 @@ static QXmppDataForm makeForm(const QList<Fld> &fields, int variant)
                                                                  QXmppDataForm::Field::JidSingleField, QXmppDataForm::Field::TextPrivateField,
                                                                  QXmppDataForm::Field::FixedField };
             fld.setType(f.key == FORM_TYPE ? QXmppDataForm::Field::HiddenField : single[(variant + f.key.size()) % 5]);
-            fld.setValue(f.vals.value(0));
+            // no value = null QString (no <value/> on the wire); an empty value = empty NON-NULL QString (<value/> since repo commit 06b3045)
+            if (f.vals.isEmpty()) fld.setValue(QString()); else { QString v = f.vals[0]; if (v.isNull()) v = QLatin1String(""); fld.setValue(v); }
             break;
         }
         case 'l': {
@@ -151,7 +152,7 @@ static std::string realVer(const InfoSet &i, int variant = 0) { return makeIq(i,
 
 // ----------------------------------------------------------------------------------------------- independent XEP-0115 §5.1
 // Works on the information a peer sees in the disco#info result (octet strings).
-struct WField { std::string var; std::vector<std::string> values; bool isBool = false; };
+struct WField { std::string var; std::vector<std::string> values; bool isBool = false; bool isSingle = false; };
 struct WForm { std::vector<WField> fields; };
 struct Wire {
     std::vector<std::array<std::string, 4>> ids;   // category, type, xml:lang, name
@@ -164,14 +165,14 @@ struct Wire {
             if (forms[i].fields.size() != o.forms[i].fields.size()) return false;
             for (size_t j = 0; j < forms[i].fields.size(); j++) {
                 auto &a = forms[i].fields[j]; auto &b = o.forms[i].fields[j];
-                if (a.var != b.var || a.values != b.values || a.isBool != b.isBool) return false;
+                if (a.var != b.var || a.values != b.values || a.isBool != b.isBool || a.isSingle != b.isSingle) return false;
             }
         }
         return true;
     }
 };
 
-struct Quirks { bool utf16 = false, boolText = false, emptySep = false; };
+struct Quirks { bool utf16 = false, boolText = false, emptySep = false, emptyDropped = false; };
 
 // RFC 4790 i;octet: octet by octet, unsigned; a proper prefix sorts first
 static bool octetLess(const std::string &a, const std::string &b)
@@ -236,6 +237,7 @@ static bool xepString(const Wire &w, Quirks q, std::string &S)
             S += f->var + "<";
             auto vals = f->values;
             if (q.boolText && f->isBool) for (auto &v : vals) v = (v == "1" || v == "true") ? "true" : "false";
+            if (q.emptyDropped && f->isSingle && vals.size() == 1 && vals[0].empty()) vals.clear();
             std::sort(vals.begin(), vals.end(), less);
             for (auto &v : vals) S += v + "<";
             if (q.emptySep && vals.empty()) S += "<";
@@ -258,23 +260,26 @@ static bool xepVer(const Wire &w, Quirks q, std::string &out)
 static const char *K_UTF16 = "C20:utf16-vs-octet-order";
 static const char *K_BOOL = "C20:boolean-field-hashed-as-true-false";
 static const char *K_EMPTY = "C20:valueless-field-extra-separator";
+static const char *K_EMPTYVAL = "C20:empty-value-not-hashed";
+static const int quirkOrder[] = { 1, 2, 4, 8, 3, 5, 6, 9, 10, 12, 7, 11, 13, 14, 15 };   // single deviations first
+static Quirks quirksOf(int b) { Quirks q; q.utf16 = b & 1; q.boolText = b & 2; q.emptySep = b & 4; q.emptyDropped = b & 8; return q; }
+static std::vector<std::string> keysOf(const Quirks &q)
+{
+    std::vector<std::string> ks;
+    if (q.utf16) ks.push_back(K_UTF16);
+    if (q.boolText) ks.push_back(K_BOOL);
+    if (q.emptySep) ks.push_back(K_EMPTY);
+    if (q.emptyDropped) ks.push_back(K_EMPTYVAL);
+    return ks;
+}
 
 // which known deviation(s) turn the XEP value into `got`?  empty result = unexplained
 static std::vector<std::string> explain(const Wire &w, const std::string &got)
 {
-    for (int bits = 1; bits <= 7; bits++) {
-        // try single deviations first
-        static const int order[] = { 0, 1, 2, 4, 3, 5, 6, 7 };
-        int b = order[bits];
-        Quirks q; q.utf16 = b & 1; q.boolText = b & 2; q.emptySep = b & 4;
+    for (int b : quirkOrder) {
+        Quirks q = quirksOf(b);
         std::string v;
-        if (xepVer(w, q, v) && v == got) {
-            std::vector<std::string> ks;
-            if (q.utf16) ks.push_back(K_UTF16);
-            if (q.boolText) ks.push_back(K_BOOL);
-            if (q.emptySep) ks.push_back(K_EMPTY);
-            return ks;
-        }
+        if (xepVer(w, q, v) && v == got) return keysOf(q);
     }
     return {};
 }
@@ -289,7 +294,7 @@ static Wire wireByRule(const InfoSet &i)
         WForm wf;
         for (auto &f : i.fields) {
             WField x; x.var = f.key.toStdString();
-            if (f.kind == 't') { if (!f.vals.value(0).isEmpty()) x.values.push_back(f.vals.value(0).toStdString()); }
+            if (f.kind == 't') { x.isSingle = true; if (!f.vals.isEmpty()) x.values.push_back(f.vals[0].toStdString()); }
             else if (f.kind == 'l') { for (auto &v : f.vals) x.values.push_back(v.toStdString()); }
             else { x.isBool = true; x.values.push_back(f.vals.value(0) == QL("1") ? "1" : "0"); }
             wf.fields.push_back(x);
@@ -319,6 +324,7 @@ static Wire wireFromQuery(const QDomElement &query)
             WForm wf;
             for (auto f = c.firstChildElement(QL("field")); !f.isNull(); f = f.nextSiblingElement(QL("field"))) {
                 WField x; x.var = f.attribute(QL("var")).toStdString(); x.isBool = f.attribute(QL("type")) == QL("boolean");
+                { QString t = f.attribute(QL("type")); x.isSingle = !x.isBool && t != QL("list-multi") && t != QL("jid-multi") && t != QL("text-multi"); }
                 for (auto v = f.firstChildElement(QL("value")); !v.isNull(); v = v.nextSiblingElement(QL("value"))) x.values.push_back(v.text().toStdString());
                 wf.fields.push_back(x);
             }
@@ -417,6 +423,7 @@ struct Gen {
             if (!noFormType) {
                 Fld ft { FORM_TYPE, 't', { text(3) } };
                 if (ft.vals[0].isEmpty() && !weirdForm) ft.vals[0] = QL("urn:t");
+                if (ft.vals[0].isEmpty() && rng.coin()) ft.vals.clear();
                 if (weirdForm && rng.below(4) == 0) { ft.kind = 'l'; int c = rng.below(3); ft.vals.clear(); for (int k = 0; k < c; k++) ft.vals << text(2); }
                 i.fields << ft;
             }
@@ -425,7 +432,10 @@ struct Gen {
                 Fld f; f.key = text(2);
                 if (f.key == FORM_TYPE) f.key += QL("x");
                 uint32_t r = rng.below(20);
-                if (r < 8) { f.kind = 't'; f.vals << text(3); if (f.vals[0].isEmpty() && rng.below(4)) f.vals[0] = QL("v"); }
+                if (r < 8) {
+                    f.kind = 't'; f.vals << text(3);
+                    if (f.vals[0].isEmpty()) { uint32_t e = rng.below(8); if (e < 5) f.vals[0] = QL("v"); else if (e < 7) f.vals.clear(); /* null: no value */ else f.vals[0] = QLatin1String(""); /* empty non-null */ }
+                }
                 else if (r < 19) { f.kind = 'l'; int c = rng.below(8) ? 1 + rng.below(3) : 0; for (int q = 0; q < c; q++) f.vals << (q && rng.below(4) == 0 ? f.vals[rng.below(q)] : text(2)); }
                 else { f.kind = 'b'; f.vals << (rng.coin() ? QL("1") : QL("0")); }
                 bool dupKey = false;
@@ -635,15 +645,10 @@ static void runCase(const InfoSet &base, Rng &rng, Gen &g, int nPerm, int nMut, 
         if (vm != real) { oraclePass()++; continue; }
         // unchanged although the XEP value changes: one of the known deviations, or something new
         std::vector<std::string> keys;
-        for (int b : { 1, 2, 4, 3, 5, 6, 7 }) {
-            Quirks q; q.utf16 = b & 1; q.boolText = b & 2; q.emptySep = b & 4;
+        for (int b : quirkOrder) {
+            Quirks q = quirksOf(b);
             std::string a1, a2;
-            if (xepVer(w, q, a1) && xepVer(wm, q, a2) && a1 == a2 && a1 == real) {
-                if (q.utf16) keys.push_back(K_UTF16);
-                if (q.boolText) keys.push_back(K_BOOL);
-                if (q.emptySep) keys.push_back(K_EMPTY);
-                break;
-            }
+            if (xepVer(w, q, a1) && xepVer(wm, q, a2) && a1 == a2 && a1 == real) { keys = keysOf(q); break; }
         }
         emitFailKeys(keys, "C20:unchanged-after-alteration", what + ": " + enc + " -> " + encm);
     }
@@ -1112,8 +1117,11 @@ int main(int argc, char **argv)
         runCase(w3, rng, g, 2, 4, true);
         InfoSet b1; b1.hasForm = true; b1.fields << Fld { FORM_TYPE, 't', { QL("urn:t") } } << Fld { QL("b"), 'b', { QL("1") } };
         runCase(b1, rng, g, 2, 4, true);
-        InfoSet e1; e1.hasForm = true; e1.fields << Fld { FORM_TYPE, 't', { QL("urn:t") } } << Fld { QL("b"), 't', { QString() } };
+        InfoSet e1; e1.hasForm = true; e1.fields << Fld { FORM_TYPE, 't', { QL("urn:t") } } << Fld { QL("b"), 't', {} };
         runCase(e1, rng, g, 2, 4, true);
+        // the empty NON-NULL string: written as <value/> since repo commit 06b3045
+        InfoSet e3; e3.hasForm = true; e3.fields << Fld { FORM_TYPE, 't', { QL("urn:t") } } << Fld { QL("b"), 't', { QLatin1String("") } };
+        runCase(e3, rng, g, 2, 4, true);
         InfoSet e2; e2.hasForm = true; e2.fields << Fld { FORM_TYPE, 't', { QL("urn:t") } } << Fld { QL("b"), 'l', {} };
         runCase(e2, rng, g, 2, 8, true);
         // tuple order vs order of the formatted string: '-' (2D) < '/' (2F)
